@@ -3,6 +3,7 @@ mod checks;
 mod e1;
 mod e3;
 mod e4;
+mod e6;
 mod watch;
 mod names;
 mod ops;
